@@ -38,8 +38,15 @@ for mid in sorted(os.listdir(os.path.join(HERE, 'seeded'))):
                 'patch -p1 -s < %s' % os.path.join(d, 'patch.diff'), cwd=scratch, shell=True, stdout=subprocess.PIPE, stderr=subprocess.STDOUT, text=True).returncode, ''
         meta['patch_applies_to_current_head'] = (rc == 0)
         if rc == 0:
-            rc, out = run(['/venv/bin/python', '-m', 'pytest', '-q', '-p', 'no:cacheprovider', '--timeout=900', 'test'], cwd=scratch)
-            meta['repo_test_suite_with_change'] = out.strip().splitlines()[-1] if out.strip() else ''
+            for attempt in range(3):
+                rc, out = run(['/venv/bin/python', '-m', 'pytest', '-q', '-p', 'no:cacheprovider', '--timeout=900', 'test'], cwd=scratch)
+                meta['repo_test_suite_with_change'] = out.strip().splitlines()[-1] if out.strip() else ''
+                failed = re.findall(r'FAILED (\S+)', out)
+                # test_arc_line draws unseeded random inputs and fails spuriously now and then on the clean tree as well
+                if failed and all('test_arc_line' in f for f in failed):
+                    meta['note'] = 'test_arc_line (unseeded random test, flaky on the clean tree too) failed in attempt %d; suite re-run' % (attempt + 1)
+                    continue
+                break
             rc, out = run(['/venv/bin/python', os.path.join(d, 'demo.py')], cwd=scratch, env={'SVGPT_TREE': scratch})
             meta['demo_with_change_exit'] = rc
             checks = [prop]
